@@ -91,6 +91,24 @@ func nodesJ(nodes []core_domain.CodeDataStruct, strip string) []interface{} {
 func javaFullMulti(c map[string]json.RawMessage, dir string) (interface{}, error) {
 	identApp := javaapp.NewJavaIdentifierApp()
 	identifiers := identApp.AnalysisPath(dir)
+	// an identifier set that lags behind the tree ("identSkip": full names of types it does not know), held fixed over all runs
+	var skip []string
+	_ = json.Unmarshal(c["identSkip"], &skip)
+	if len(skip) > 0 {
+		kept := identifiers[:0:0]
+		for _, id := range identifiers {
+			drop := false
+			for _, sk := range skip {
+				if id.Package+"."+id.NodeName == sk { // (the identifier pass records no file path: by full name)
+					drop = true
+				}
+			}
+			if !drop {
+				kept = append(kept, id)
+			}
+		}
+		identifiers = kept
+	}
 	var runs [][]string
 	if err := json.Unmarshal(c["runs"], &runs); err != nil {
 		return nil, err
